@@ -116,6 +116,7 @@ static tis::Scenario make_pop(Rng& g, int iterations, bool few_face_types_epithe
         const int level = g.coin(0.2) ? (g.coin(0.3) ? 4 : 3) : 2; if (level > 2) s.family = "population_with_fine_meshes";
         s.cells.push_back({tis::sphere(r, i * (2 * r + gap), j * (2 * r + gap), 0, g, level), role[idx]}); }
     s.P.simulation_duration_ = (iterations - 0.5) * s.P.time_step_; s.P.sampling_period_ = 20 * s.P.time_step_;
+    { double u = g.uni(); s.construction_ids = u < 0.7 ? 0 : u < 0.85 ? 1 : 2; }   // ids the cells are built with before the solver takes them over
     return s;
 }
 
